@@ -109,6 +109,9 @@ func (i ReflectInspector) inspect(node any, key string) any {
 		if err != nil {
 			return nil
 		}
+		if idx < 0 || idx >= v.Len() {
+			return nil
+		}
 		sv := v.Index(idx)
 		if sv.IsValid() && sv.CanInterface() {
 			return sv.Interface()
